@@ -138,7 +138,11 @@ fn pass_2_internal(segment: &Segment, common_context: &CommonContext) -> Result<
                 }
             }
             Item::Undef(alias) => {
-                if let None = common_context.defs.borrow_mut().remove(alias) {
+                if let None = common_context
+                    .defs
+                    .borrow_mut()
+                    .remove(&alias.to_lowercase())
+                {
                     bail!("Identifier {} isn't defined, {}", alias, line);
                 }
             }
@@ -147,10 +151,11 @@ fn pass_2_internal(segment: &Segment, common_context: &CommonContext) -> Result<
                     Ok(value) => value,
                     Err(e) => bail!("{}, {}", e, line),
                 };
-                if common_context.exist(name) {
+                let name = name.to_lowercase();
+                if common_context.exist(&name) {
                     let mut sets = common_context.sets.borrow_mut();
-                    if let Some(_) = sets.get(name) {
-                        sets.insert(name.clone(), Expr::Const(value));
+                    if let Some(_) = sets.get(&name) {
+                        sets.insert(name, Expr::Const(value));
                     } else {
                         // TODO: add display current string of mistake and previous location
                         bail!("Identifier {} is used twice, {}", name, line);
@@ -159,7 +164,7 @@ fn pass_2_internal(segment: &Segment, common_context: &CommonContext) -> Result<
                     common_context
                         .sets
                         .borrow_mut()
-                        .insert(name.clone(), Expr::Const(value));
+                        .insert(name, Expr::Const(value));
                 }
             }
             _ => {}
